@@ -345,6 +345,8 @@ def PreW (w : World) (wins : List (List Win.Rec)) (env : Env) (a : Arch) (os : O
     (chain : List Exp) : Bool :=
   mem.range?.isSome && (a == .x86 || noWins wins) &&
   ctx.has a a.ipName && ctx.has a a.spName && (ctx.m64 == (a == .mips64)) &&
+  -- x86: 32-bit register values (what the request parser / `CONTEXT_X86` can hold)
+  (a != .x86 || Win.x86Regs.all fun r => decide (ctx.raw .x86 r ≤ U32MAX)) &&
   (!(a.leafOk) || ctx.has a (if a.isMips then "ra" else "lr") ||
      (cfiRecordAt w ctx.ip).all fun r => r.init ≠ leafRule a) &&
   preMixedFrom w wins env a os mem (initState a ctx) chain
